@@ -189,9 +189,10 @@ class Gnim(_Cached):
             fs.append(Failure('gnim-flag-not-any', 'flags %s, returned %s' % ([r[3] for r in rows], out['flag'])))
         if case['amp'] == 0:
             base, bflag = _msk.extract(x, dict(_msk.IMF_OPTS[case['opts']]))
-            exact = case['nphases'] in (1, 2, 4, 8)
+            # "reduces to unmasked extraction" holds to within rounding of the phase average: bit-exactness (even for a
+            # power-of-two number of phases) depends on the summation order and is not demanded (harmless rewrite C07-2)
             dev = np.max(np.abs(got - base))
-            if (exact and dev != 0) or dev > 1e-12 * max(1.0, _msk.max_abs(x)) or bool(out['flag']) != bflag:
+            if dev > 1e-12 * max(1.0, _msk.max_abs(x)) or bool(out['flag']) != bflag:
                 fs.append(Failure('zero-amp-differs-from-unmasked', 'deviation %.3g, nphases=%d' % (dev, case['nphases'])))
         if not all(out['same']):
             bad = [n for n, s in zip(case['nprocs'], out['same']) if not s]
